@@ -18,6 +18,7 @@ import (
 	"encoding/json"
 	"errors"
 	"fmt"
+	"hash/fnv"
 	"io"
 	"log/slog"
 	"os"
@@ -66,7 +67,9 @@ type vhStep struct {
 	Lat    int             `json:"lat"`
 	Err    bool            `json:"err"`
 	Probe  string          `json:"probe"`
+	Mid    string          `json:"mid"`
 	S3Fail [][]any         `json:"s3fail"`
+	S3Err  string          `json:"s3err"`
 	Raw    json.RawMessage `json:"-"`
 }
 
@@ -105,6 +108,7 @@ type vhS3 struct {
 	mu       sync.Mutex
 	e        *vhEnv
 	fail     map[string]bool   // "topic|partition"
+	timeout  bool              // refuse with an error wrapping context.DeadlineExceeded (a hanging endpoint) instead of a plain error
 	nfail    int               // refused upload calls (each one is recorded by the log as one failed S3 operation)
 	healthAt map[string]string // "topic|partition" -> rating when its first upload (segment or index) started
 }
@@ -130,7 +134,7 @@ func (s *vhS3) UploadSegment(ctx context.Context, key string, body []byte) error
 	}
 	s.mu.Unlock()
 	if refuse {
-		return vhBoom
+		return s.refusal()
 	}
 	return s.MemoryS3Client.UploadSegment(ctx, key, body)
 }
@@ -148,13 +152,23 @@ func (s *vhS3) UploadIndex(ctx context.Context, key string, body []byte) error {
 	}
 	s.mu.Unlock()
 	if refuse {
-		return vhBoom
+		return s.refusal()
 	}
 	return s.MemoryS3Client.UploadIndex(ctx, key, body)
 }
 
-func (s *vhS3) arm(fail []vhTarget) {
+func (s *vhS3) refusal() error {
 	s.mu.Lock()
+	defer s.mu.Unlock()
+	if s.timeout {
+		return fmt.Errorf("verif: injected S3 timeout: %w", context.DeadlineExceeded)
+	}
+	return vhBoom
+}
+
+func (s *vhS3) arm(fail []vhTarget, kind string) {
+	s.mu.Lock()
+	s.timeout = kind == "timeout"
 	s.fail = map[string]bool{}
 	for _, tg := range fail {
 		s.fail[vhKey(tg.name, tg.part)] = true
@@ -166,6 +180,7 @@ func (s *vhS3) arm(fail []vhTarget) {
 
 // vhGate parks the lease manager's monitor goroutine of one expired session (scheduler gate "lease.monitor").
 type vhGate struct {
+	point    string
 	id       string
 	parked   chan struct{}
 	release  chan struct{}
@@ -178,7 +193,7 @@ var vhCurGate atomic.Pointer[vhGate]
 
 func vhGateFn(point, id string) {
 	g := vhCurGate.Load()
-	if g == nil || point != "lease.monitor" || id != g.id {
+	if g == nil || point != g.point || id != g.id {
 		return
 	}
 	first := false
@@ -196,28 +211,32 @@ type vhSample struct {
 }
 
 type vhEnv struct {
-	t        *testing.T
-	sched    vhSched
-	h        *handler
-	store    *vhStore
-	s3       *storage.MemoryS3Client
-	s3w      *vhS3
-	gate     *vhGate
-	fed      []vhSample
-	hcfg     broker.S3HealthConfig
-	member   string
-	gen      int32
-	corr     int32
-	etcd     bool
-	admin    *clientv3.Client
-	cliA     *clientv3.Client
-	cliB     *clientv3.Client
-	leaseA   *metadata.PartitionLeaseManager
-	leaseB   *metadata.PartitionLeaseManager
-	estore   *metadata.EtcdStore
-	leaseUp  bool
-	sessDead bool
-	nreq     int
+	t         *testing.T
+	sched     vhSched
+	h         *handler
+	store     *vhStore
+	s3        *storage.MemoryS3Client
+	s3w       *vhS3
+	gate      *vhGate
+	fed       []vhSample
+	hcfg      broker.S3HealthConfig
+	member    string
+	gen       int32
+	corr      int32
+	etcd      bool
+	admin     *clientv3.Client
+	cliA      *clientv3.Client
+	cliB      *clientv3.Client
+	leaseA    *metadata.PartitionLeaseManager
+	leaseB    *metadata.PartitionLeaseManager
+	estore    *metadata.EtcdStore
+	leaseUp   bool
+	sessDead  bool
+	principal string
+	cliA0     *clientv3.Client
+	leaseA0   *metadata.PartitionLeaseManager
+	a0Lease   int64
+	nreq      int
 }
 
 func vhBatch() []byte {
@@ -430,7 +449,7 @@ func vhGroupTopics(tgs []vhTarget) ([]string, map[string][]int32) {
 func (e *vhEnv) do(ctx context.Context, api string, tgs []vhTarget) (map[string]vhReply, bool) {
 	t := e.t
 	e.corr++
-	cid := vhPrincipal
+	cid := e.principal
 	hdr := func(key int16, v int16) *protocol.RequestHeader {
 		return &protocol.RequestHeader{APIKey: key, APIVersion: v, CorrelationID: e.corr, ClientID: &cid}
 	}
@@ -795,7 +814,60 @@ func (e *vhEnv) etcdOwner(ctx context.Context, tg vhTarget) string {
 	if len(resp.Kvs) == 0 {
 		return ""
 	}
+	if e.a0Lease != 0 && resp.Kvs[0].Lease == e.a0Lease && string(resp.Kvs[0].Value) == "A" {
+		return "A0" // written by the broker's previous incarnation (same broker id, its own etcd lease)
+	}
 	return string(resp.Kvs[0].Value)
+}
+
+// doMid runs one produce whose lease acquisition is parked at the scheduler gate lease.afterTxn (transaction committed,
+// reply not processed), performs the environment step `mid`, and lets the produce continue.
+func (e *vhEnv) doMid(ctx context.Context, step vhStep, tgs []vhTarget) (map[string]vhReply, bool) {
+	t := e.t
+	tg := tgs[0]
+	g := &vhGate{point: "lease.afterTxn", id: fmt.Sprintf("A|%s/%d", tg.name, tg.part), parked: make(chan struct{}), release: make(chan struct{}), returned: make(chan struct{})}
+	e.gate = g
+	vhCurGate.Store(g)
+	type res struct {
+		r  map[string]vhReply
+		ok bool
+	}
+	done := make(chan res, 1)
+	go func() {
+		r, ok := e.do(ctx, step.Api, tgs)
+		done <- res{r, ok}
+	}()
+	select {
+	case <-g.parked:
+	case <-time.After(30 * time.Second):
+		t.Fatalf("ReqMid: gate lease.afterTxn not reached (hook missing, or the partition was already owned)")
+	}
+	switch step.Mid {
+	case "ReleaseForeign":
+		e.leaseA.ReleaseAll()
+	case "ExpireOldForeign":
+		c, cancel := context.WithTimeout(ctx, 5*time.Second)
+		_, err := e.admin.Revoke(c, clientv3.LeaseID(e.a0Lease))
+		cancel()
+		if err != nil {
+			t.Fatalf("ReqMid: revoke the previous incarnation's lease: %v", err)
+		}
+	default:
+		t.Fatalf("ReqMid: unknown mid step %q", step.Mid)
+	}
+	if err := e.leaseB.Acquire(ctx, tg.name, tg.part); err != nil {
+		t.Fatalf("ReqMid: the other broker could not acquire %v: %v", tg, err)
+	}
+	g.relOnce.Do(func() { close(g.release) })
+	var out res
+	select {
+	case out = <-done:
+	case <-time.After(60 * time.Second):
+		t.Fatalf("ReqMid: the parked produce did not finish")
+	}
+	e.gate = nil
+	vhCurGate.Store(nil)
+	return out.r, out.ok
 }
 
 func (e *vhEnv) setup(ctx context.Context, endpoints []string) {
@@ -925,6 +997,12 @@ func (e *vhEnv) teardown() {
 	if e.leaseB != nil {
 		e.leaseB.ReleaseAll()
 	}
+	if e.leaseA0 != nil {
+		e.leaseA0.ReleaseAll()
+	}
+	if e.cliA0 != nil {
+		_ = e.cliA0.Close()
+	}
 	if e.cliA != nil {
 		_ = e.cliA.Close()
 	}
@@ -998,7 +1076,7 @@ func TestVerifHandlerReplay(t *testing.T) {
 	ctx := context.Background()
 	n := 0
 	for i, s := range scheds {
-		e := &vhEnv{t: t, sched: s, etcd: s.Mode == "etcd", admin: admin}
+		e := &vhEnv{t: t, sched: s, etcd: s.Mode == "etcd", admin: admin, principal: vhPrincipal}
 		e.setup(ctx, endpoints)
 		_, st0 := e.project(ctx)
 		emit(map[string]any{"ev": "Reset", "sched": i, "mode": s.Mode, "auto": s.Auto, "leasing": e.etcd, "st": st0})
@@ -1059,6 +1137,26 @@ func TestVerifHandlerReplay(t *testing.T) {
 				}
 				e.leaseUp = false
 				emit(map[string]any{"ev": "LeaseDown", "arg": ""})
+			case "OldIncarnation":
+				idx, _ := strconv.Atoi(step.Arg)
+				tg := vhTarget{vhTopicSeq[(idx-1)/vhNP], int32((idx - 1) % vhNP)}
+				cli, err := clientv3.New(clientv3.Config{Endpoints: endpoints, DialTimeout: 5 * time.Second})
+				if err != nil {
+					t.Fatalf("etcd client: %v", err)
+				}
+				e.cliA0 = cli
+				e.leaseA0 = metadata.NewPartitionLeaseManager(cli, metadata.PartitionLeaseConfig{BrokerID: "A", LeaseTTLSeconds: 60, Logger: testLoggerVH()})
+				if err := e.leaseA0.Acquire(ctx, tg.name, tg.part); err != nil {
+					t.Fatalf("previous incarnation acquire %v: %v", tg, err)
+				}
+				c, cancel := context.WithTimeout(ctx, 3*time.Second)
+				resp, err := e.admin.Get(c, fmt.Sprintf("%s/%s/%d", metadata.PartitionLeasePrefix(), tg.name, tg.part))
+				cancel()
+				if err != nil || len(resp.Kvs) != 1 {
+					t.Fatalf("previous incarnation key: %v %+v", err, resp)
+				}
+				e.a0Lease = resp.Kvs[0].Lease
+				emit(map[string]any{"ev": "OldIncarnation", "arg": step.Arg, "owner": e.etcdOwner(ctx, tg)})
 			case "SessionExpire":
 				// the broker's lease is revoked in etcd; its monitor goroutine is parked at the gate lease.monitor
 				var leaseID clientv3.LeaseID
@@ -1078,7 +1176,7 @@ func TestVerifHandlerReplay(t *testing.T) {
 				if leaseID == 0 {
 					t.Fatalf("SessionExpire: broker owns nothing")
 				}
-				g := &vhGate{id: fmt.Sprintf("A|%x", int64(leaseID)), parked: make(chan struct{}), release: make(chan struct{}), returned: make(chan struct{})}
+				g := &vhGate{point: "lease.monitor", id: fmt.Sprintf("A|%x", int64(leaseID)), parked: make(chan struct{}), release: make(chan struct{}), returned: make(chan struct{})}
 				e.gate = g
 				vhCurGate.Store(g)
 				c, cancel := context.WithTimeout(ctx, 5*time.Second)
@@ -1130,15 +1228,21 @@ func TestVerifHandlerReplay(t *testing.T) {
 				e.gate = nil
 				vhCurGate.Store(nil)
 				emit(map[string]any{"ev": "MonitorRun", "arg": ""})
-			case "Req":
+			case "Req", "ReqMid":
 				e.nreq++
 				tgs := vhTargets(step.Tg)
 				policy := "deny"
 				if step.Perms.Dflt {
 					policy = "allow"
 				}
+				// one principal name per distinct ACL entry: the same name always carries the same rules (an ACL is fixed per
+				// principal in a running broker), different entries never share a name
+				pj, _ := json.Marshal(step.Perms)
+				hsh := fnv.New64a()
+				hsh.Write(pj)
+				e.principal = fmt.Sprintf("%s-%x", vhPrincipal, hsh.Sum64())
 				e.h.authorizer = acl.NewAuthorizer(acl.Config{Enabled: true, DefaultPolicy: policy,
-					Principals: []acl.PrincipalRules{{Name: vhPrincipal, Allow: vhRules(step.Perms.Allow), Deny: vhRules(step.Perms.Deny)}}})
+					Principals: []acl.PrincipalRules{{Name: e.principal, Allow: vhRules(step.Perms.Allow), Deny: vhRules(step.Perms.Deny)}}})
 				e.installMonitor()
 				health := string(e.h.s3Health.State())
 				owner0 := make([]string, len(tgs))
@@ -1155,9 +1259,15 @@ func TestVerifHandlerReplay(t *testing.T) {
 						}
 					}
 				}
-				e.s3w.arm(vhTargets(step.S3Fail))
+				e.s3w.arm(vhTargets(step.S3Fail), step.S3Err)
 				before, _ := e.project(ctx)
-				replies, replied := e.do(ctx, step.Api, tgs)
+				var replies map[string]vhReply
+				var replied bool
+				if step.A == "ReqMid" {
+					replies, replied = e.doMid(ctx, step, tgs)
+				} else {
+					replies, replied = e.do(ctx, step.Api, tgs)
+				}
 				healthAfter := string(e.h.s3Health.State())
 				after, st := e.project(ctx)
 				items := make([]map[string]any, 0, len(tgs))
@@ -1178,11 +1288,12 @@ func TestVerifHandlerReplay(t *testing.T) {
 						hat = healthAfter
 					}
 					it := map[string]any{"name": tg.name, "part": tg.part, "code": r.code, "data": r.data, "replied": replied,
-						"owner0": "", "owns1": false, "owner1": "", "healthAt": hat, "uploaded": uploaded}
+						"owner0": "", "owns1": false, "owner1": "", "foreign": false, "healthAt": hat, "uploaded": uploaded}
 					if leased {
 						it["owner0"] = owner0[j]
 						it["owns1"] = e.leaseA.Owns(tg.name, tg.part)
 						it["owner1"] = e.etcdOwner(ctx, tg)
+						it["foreign"] = e.leaseB.Owns(tg.name, tg.part)
 					}
 					items = append(items, it)
 				}
@@ -1200,13 +1311,14 @@ func TestVerifHandlerReplay(t *testing.T) {
 				if perms.Deny == nil {
 					perms.Deny = [][]string{}
 				}
-				line := map[string]any{"ev": "Req", "api": wire, "mapi": step.Api, "tg": step.Tg, "perms": perms, "leasing": e.etcd,
+				line := map[string]any{"ev": step.A, "mid": step.Mid, "api": wire, "mapi": step.Api, "tg": step.Tg, "perms": perms, "leasing": e.etcd,
 					"storeUp": e.store.up, "leaseUp": !e.etcd || e.leaseUp, "health": health, "auto": s.Auto,
 					"items": items, "changed": vhChanged(before, after), "st": st}
 				if step.Probe != "" {
 					line["probe"] = step.Probe
 					e.s3w.mu.Lock()
 					line["nfail"] = e.s3w.nfail
+					line["s3err"] = step.S3Err
 					// the refused uploads were recorded by the log as failed S3 operations: they stay in the window the next
 					// fresh monitor is fed with
 					for k := 0; k < e.s3w.nfail; k++ {
